@@ -231,7 +231,7 @@ with exec (fuel:nat) (env:list val) (ss:list stmt) {struct fuel} : res (sres (F3
     | SLet e => match eval fuel' env e with Ok (CVal v) => exec fuel' (env ++ [v]) rest | Ok (CRet v) => Ok (SRet v) | Panic => Panic | UB s => UB s | OutOfFuel => OutOfFuel | Stuck s => Stuck s end
     | SAssign p e => match eval fuel' env e with Ok (CVal v) => env' <- pset env p v ;; exec fuel' env' rest | Ok (CRet v) => Ok (SRet v) | Panic => Panic | UB s => UB s | OutOfFuel => OutOfFuel | Stuck s => Stuck s end
     | SExpr e => match eval fuel' env e with Ok (CVal _) => exec fuel' env rest | Ok (CRet v) => Ok (SRet v) | Panic => Panic | UB s => UB s | OutOfFuel => OutOfFuel | Stuck s => Stuck s end
-    | SAssert c => match eval fuel' env c with Ok (CVal (VB true)) => exec fuel' env rest | Ok (CVal (VB false)) => Panic | Ok (CVal _) => Stuck "assert" | Ok (CRet v) => Ok (SRet v) | Panic => Panic | UB s => UB s | OutOfFuel => OutOfFuel | Stuck s => Stuck s end
+    | SAssert c => match eval fuel' env c with Ok (CVal (VB true)) => exec fuel' env rest | Ok (CVal (VB false)) => Panic | Ok (CVal _) => Stuck "assert" | Ok (CRet v) => Stuck "assert-return" | Panic => Panic | UB s => UB s | OutOfFuel => OutOfFuel | Stuck s => Stuck s end
     | SIf c t f => match eval fuel' env c with
         | Ok (CVal (VB b)) => match exec fuel' env (if b then t else f) with Ok (SNorm env') => exec fuel' (firstn n env') rest | other => other end
         | Ok (CVal _) => Stuck "sif" | Ok (CRet v) => Ok (SRet v) | Panic => Panic | UB s => UB s | OutOfFuel => OutOfFuel | Stuck s => Stuck s end
